@@ -278,6 +278,28 @@ def mvnd_obligations(chk):
             return sep, z3.And(*gl)
         obs.append(Obligation(f"MVND[{pname}]: the sampler's factor S satisfies the Moore-Penrose equations, S S^T = pseudo-inverse of the precision (covariance of the samples)", [ep], g_pinv,
                               signature=f"mvnd:{tag}:pinv", timeout_s=300, tactic="default"))
+    # --- batch of variances / locations / evaluation points: member b uses var[b], loc[b], x[b]
+    Kb = pens["rank-1(2x2)"]
+    ldb = float(np.log(2.0))
+    vb, xb, mb = sym_array("var_b", (3,)), sym_array("x_b", (3, 2)), sym_array("mu_b", (3, 2))
+    e_b = chk.note_enc(Enc("MVND[rank-1(2x2)].from_penalty(batch of 3 variances, rank and log-pdet supplied)",
+                           lambda v_, x_, m_: MVND.from_penalty(m_, v_, jnp.asarray(Kb), rank=1, log_pdet=ldb).log_prob(x_),
+                           (jnp.array([0.7, 1.3, 2.1]), jnp.arange(6.0).reshape(3, 2) * 0.1, jnp.zeros((3, 2)) + 0.2), (vb, xb, mb),
+                           domain={c.decl().name(): (0.2, 5.0) for c in cells(vb)}))
+
+    def g_batch(V):
+        if np.shape(V.out) != (3,):
+            return [], z3.BoolVal(False)
+        goals = []
+        for b in range(3):
+            d_ = [xb[b, i] - mb[b, i] for i in range(2)]
+            quad = sum(V.c(Kb[i, j]) * d_[i] * d_[j] for i in range(2) for j in range(2)) / vb[b]
+            form = -quad / 2 - (V.c(LOG2PI) - (V.c(np.float32(ldb)) - V.log(vb[b]))) / 2
+            d = V.out[b] - form
+            goals += [d <= z3.RealVal("1/10000"), d >= -z3.RealVal("1/10000")]
+        return [c > 0 for c in cells(vb)], z3.And(*goals)
+    obs.append(Obligation("MVND: with a batch of variances, locations and evaluation points, batch member b of log_prob is the density with var[b], loc[b] at x[b]", [e_b], g_batch,
+                          signature="mvnd:batch", expand_logs=True, timeout_s=120))
     # --- a supplied rank is used as given (penalty with an eigenvalue below the 1e-6 tolerance), log-pdet not supplied
     Ks = np.diag([1.0, 0.5, 1e-7]).astype(np.float32)
     var = z3.Real("var_small")
